@@ -55,9 +55,18 @@ Proof. exact two_equal_fields_refused. Qed.
 Print Assumptions C09_two_equal_fields_refused.
 
 (* a Struct expansion without a source for its struct *)
-Theorem C09_orphan_refused : forall pm provs s st r, hd_error (Gen.requires s) = Some st -> Gen.assoc st pm = None -> Gen.pass2 pm provs (s :: r) = Gen.Err 2.
+Theorem C09_orphan_refused : forall pm provs s st r, hd_error (Gen.requires s) = Some st -> Gen.assoc st pm = None ->
+  Gen.has_field_of st r = false -> Gen.pass2 pm provs (s :: r) = Gen.Err 2.
 Proof. exact orphan_struct_refused. Qed.
 Print Assumptions C09_orphan_refused.
+
+(* wherever the orphan stands among the Struct expansions (which are retried when their source is a field of a struct
+   expanded later): if nobody supplies its struct type - no provider and no field of any struct of the declaration - the
+   declaration is never accepted *)
+Theorem C09_orphan_never_accepted : forall pm provs ss s st, In s ss -> hd_error (Gen.requires s) = Some st ->
+  Gen.assoc st pm = None -> Gen.has_field_of st ss = false -> forall r, Gen.pass2 pm provs ss <> Gen.OK r.
+Proof. exact orphan_struct_never_accepted. Qed.
+Print Assumptions C09_orphan_never_accepted.
 
 (* acceptance, second half: once the model of NewGraph has accepted a declaration, statement building cannot fail
    ("no initial pools found" is unreachable) - the injector is emitted. (C09_acyclic_accepted below is the first half.) *)
